@@ -296,6 +296,10 @@ class Interp:
     def st_Return(self, node: ast.Return, st: State, ctx: Ctx) -> List[Tuple[State, Any]]:
         if node.value is None:
             return [(st, ("return", c(None)))]
+        self._cur = (st, ctx)
+        des = self._desugar_comp(node)
+        if des is not None:
+            return self.exec_block(des, st, ctx)
         out = []
         for s, v, sig in self.eval_forking(node.value, st, ctx):
             out.append((s, sig if sig is not None else ("return", v)))
@@ -326,15 +330,19 @@ class Interp:
             return ("exc", v[1].split("builtins.")[-1], (), where, cause)
         return ("exc", "Exception", (v,), where, cause)
 
-    def _desugar_comp(self, node: ast.Assign) -> Optional[List[ast.stmt]]:
-        """`x = {k: await f(k) for k in it}` (or list/set) -> explicit loop, so that awaited calls inside fork properly."""
+    def _desugar_comp(self, node: Any) -> Optional[List[ast.stmt]]:
+        """`x = {k: await f(k) for k in it}` / `return {d for d in it if p(d)}` (or list/dict) -> explicit loop,
+        so that awaited calls and element filters fork properly (statement-level forking)."""
         v = node.value
         if not isinstance(v, (ast.DictComp, ast.ListComp, ast.SetComp)) or len(v.generators) != 1:
             return None
-        if not any(isinstance(n, ast.Await) for n in ast.walk(v)):
+        if not any(isinstance(n, ast.Await) for n in ast.walk(v)) and not v.generators[0].ifs:
             return None
         g = v.generators[0]
-        tmp = "$comp"
+        if not any(isinstance(n, ast.Await) for n in ast.walk(v)) and not self._concrete_iter_hint(g.iter):
+            return None
+        self._comp_n = getattr(self, "_comp_n", 0) + 1
+        tmp = f"$comp{self._comp_n}"
         if isinstance(v, ast.DictComp):
             init: ast.expr = ast.Dict(keys=[], values=[])
             body: ast.stmt = ast.Assign(targets=[ast.Subscript(value=ast.Name(id=tmp, ctx=ast.Load()), slice=v.key, ctx=ast.Store())], value=v.value)
@@ -349,14 +357,35 @@ class Interp:
         stmts: List[ast.stmt] = [
             ast.Assign(targets=[ast.Name(id=tmp, ctx=ast.Store())], value=init),
             ast.For(target=g.target, iter=g.iter, body=[body], orelse=[]),
-            ast.Assign(targets=node.targets, value=ast.Name(id=tmp, ctx=ast.Load())),
+            (ast.Return(value=ast.Name(id=tmp, ctx=ast.Load())) if isinstance(node, ast.Return) else
+             ast.Assign(targets=node.targets, value=ast.Name(id=tmp, ctx=ast.Load()))),
         ]
         for s_ in stmts:
             ast.copy_location(s_, node)
             ast.fix_missing_locations(s_)
         return stmts
 
+    def _concrete_iter_hint(self, it: ast.expr) -> bool:
+        """Filtered comprehension: unroll into a loop only over an enum class / literal / range (concrete items);
+        over a symbolic collection the expression form map(e, filter(p, xs)) is kept instead."""
+        cur = getattr(self, "_cur", None)
+        if isinstance(it, (ast.Tuple, ast.List)):
+            return True
+        if isinstance(it, ast.Call) and isinstance(it.func, ast.Name) and it.func.id == "range":
+            return True
+        if isinstance(it, (ast.Name, ast.Attribute)) and cur is not None:
+            st, ctx = cur
+            if isinstance(it, ast.Name) and it.id in st.env:
+                return self.iter_items(st.env[it.id], st, ctx, it) is not None
+            try:
+                r = self.prog.resolve_expr(ctx.module, it)
+            except Exception:  # noqa: BLE001
+                r = None
+            return bool(r and r[0] == "class" and r[1].enum is not None)
+        return False
+
     def st_Assign(self, node: ast.Assign, st: State, ctx: Ctx) -> List[Tuple[State, Any]]:
+        self._cur = (st, ctx)
         des = self._desugar_comp(node)
         if des is not None:
             return self.exec_block(des, st, ctx)
@@ -938,6 +967,69 @@ class Interp:
         return val
 
     # ------------------------------------------------------------------
+    def module_const_value(self, mod: Module, name: str) -> Optional[Term]:
+        """Value of a module-level name whose initialiser is not a literal (a table derived by a comprehension,
+        `timedelta(days=1)`, ...): the initialiser is interpreted once in an empty state; the result is used only
+        if it is state-independent (constants, enum members, containers of those, pure applications) and its
+        evaluation had no observable effect and could not raise."""
+        cache = self.__dict__.setdefault("_modconst_cache", {})
+        busy = self.__dict__.setdefault("_modconst_busy", set())
+        key = (mod.name, name)
+        if key in cache:
+            return cache[key]
+        if key in busy:
+            return None
+        busy.add(key)
+        val: Optional[Term] = None
+        try:
+            st = State()
+            ctx = Ctx(None, mod, 0)
+            v = self.eval(mod.constants[name], st, ctx)
+            if not st.events and not st.pending and not st.pc:
+                val = self.reify(v, st)
+        except (AnalysisError, Unsupported, KeyError, IndexError, TypeError):
+            val = None
+        finally:
+            busy.discard(key)
+        cache[key] = val
+        return val
+
+    def reify(self, v: Term, st: State) -> Optional[Term]:
+        t = v[0] if isinstance(v, tuple) and v else None
+        if t in ("c", "enum", "class", "func"):
+            return v
+        if t == "tuple":
+            xs = [self.reify(x, st) for x in v[1]]
+            return None if any(x is None for x in xs) else ("tuple", tuple(xs))
+        if t in ("clist", "cset"):
+            xs = [self.reify(x, st) for x in v[1]]
+            return None if any(x is None for x in xs) else (t, tuple(xs))
+        if t == "cdict":
+            ps = [(self.reify(k, st), self.reify(x, st)) for k, x in v[1]]
+            return None if any(k is None or x is None for k, x in ps) else ("cdict", tuple(ps))
+        if t == "obj":
+            ho = st.heap[v[1]]
+            if ho.symbolic or ho.kind not in ("list", "set", "dict"):
+                return None
+            if ho.kind == "dict":
+                ps = [(self.reify(k, st), self.reify(x, st)) for k, x in ho.items]
+                return None if any(k is None or x is None for k, x in ps) else ("cdict", tuple(ps))
+            xs = [self.reify(x, st) for x in ho.items]
+            return None if any(x is None for x in xs) else ("clist" if ho.kind == "list" else "cset", tuple(xs))
+        if t == "app" and v[1] in self.lib.PURE_APPS and v[1] not in self.lib.CLOCK_READS:
+            xs = []
+            for x in v[2:]:
+                if isinstance(x, tuple) and x and x[0] == "kw":
+                    r = self.reify(x[2], st)
+                    xs.append(None if r is None else ("kw", x[1], r))
+                else:
+                    xs.append(self.reify(x, st))
+            return None if any(x is None for x in xs) else v[:2] + tuple(xs)
+        if t == "seq" and all(a[0] == "L" for a in v[2]):
+            return v
+        return None
+
+    # ------------------------------------------------------------------
     # pure expression evaluation
     def lift(self, x: Any) -> Term:
         if isinstance(x, EnumRef):
@@ -991,6 +1083,9 @@ class Interp:
             try:
                 return self.lift(self.prog.fold(mod, mod.constants[name]))
             except NotConst:
+                v = self.module_const_value(mod, name)
+                if v is not None:
+                    return v
                 # module-level object such as `logger = getLogger(__name__)`
                 return ("modvar", mod.name, name)
         raise AnalysisError(f"cannot use reference {r[0]}")
@@ -1336,11 +1431,23 @@ class Interp:
         return out
 
     def ev_ListComp(self, node: ast.ListComp, st: State, ctx: Ctx) -> Term:
-        if len(node.generators) != 1 or node.generators[0].ifs or node.generators[0].is_async:
+        if len(node.generators) != 1 or node.generators[0].is_async:
             raise AnalysisError(f"unsupported comprehension at {ctx.loc(node)}")
         g = node.generators[0]
         itv = self.eval(g.iter, st, ctx)
         items = self.iter_items(itv, st, ctx, node)
+        if g.ifs:
+            if items is not None:
+                raise AnalysisError(f"unsupported comprehension (filter over a concrete collection inside an expression) at {ctx.loc(node)}")
+            # [e(x) for x in xs if p(x)] over a symbolic collection == map(e, filter(p, xs)): same canonical form
+            arg = ast.arguments(posonlyargs=[], args=[ast.arg(arg=_single_name(g.target, ctx))], kwonlyargs=[], kw_defaults=[], defaults=[])
+            test = g.ifs[0] if len(g.ifs) == 1 else ast.BoolOp(op=ast.And(), values=list(g.ifs))
+            plam = ("lambda", ast.copy_location(ast.Lambda(args=arg, body=test), node), None, ctx.fi, dict(st.env))
+            filt = ("filterobj", self.lib.lambda_norm(self, plam, itv, st, ctx, node), itv)
+            if isinstance(node.elt, ast.Name) and node.elt.id == _single_name(g.target, ctx):
+                return ("app", "list", filt)
+            elam = ("lambda", ast.copy_location(ast.Lambda(args=arg, body=node.elt), node), None, ctx.fi, dict(st.env))
+            return ("mapobj", self.lib.lambda_norm(self, elam, itv, st, ctx, node), filt, "list")
         if items is not None:
             saved = dict(st.env)
             res = []
@@ -1380,10 +1487,16 @@ class Interp:
         if items is None:
             return top("dict comprehension over a symbolic collection")
         saved = dict(st.env)
-        pairs = []
+        pairs: List[Tuple[Term, Term]] = []
         for it in items:
             self.assign(g.target, it, st, ctx)
-            pairs.append((self.canon_cmp_operand(self.eval(node.key, st, ctx), st), self.eval(node.value, st, ctx)))
+            k_ = self.canon_cmp_operand(self.eval(node.key, st, ctx), st)
+            v_ = self.eval(node.value, st, ctx)
+            # a repeated key keeps its first position and takes the last value, like dict
+            if any(k2 == k_ for k2, _ in pairs):
+                pairs = [(k2, v_ if k2 == k_ else v2) for k2, v2 in pairs]
+            else:
+                pairs.append((k_, v_))
         st.env = saved
         return st.alloc(HeapObj("dict", None, {}, pairs))
 
